@@ -393,6 +393,36 @@ def run_witness(binpath, w):
                 bad_items.append("only %d positions reported for %d inputs (each input should raise an error with a position)" % (n_pos, len(srcs)))
             return {"cmd": "reftest-json-session <%d inputs>" % len(srcs), "exit": p.returncode, "stdout": p.stdout[-600:], "stderr": p.stderr[-300:],
                     "reproduced": bool(bad_items), "why": "; ".join(bad_items[:4])[:1500], "n_inputs": len(srcs), "failing_inputs": failing[:4]}
+        elif kind == "session-alive":
+            # C09 bounded stand-in: each item is a list of session inputs; the session must answer every one of
+            # them (one evaluate / run_command answer per request), must not panic, and must answer the last
+            # request `40 + 2` with 42
+            bad_items, failing = [], []
+            for idx, reqs in enumerate(w["input"]):
+                f = os.path.join(tmpdir, "a%d.jsonl" % idx)
+                with open(f, "w", encoding="utf-8") as fh:
+                    for req in reqs:
+                        fh.write(json.dumps({"method": "run", "input": req}) + "\n")
+                try:
+                    p = subprocess.run([binpath, "reftest-json-session", f], capture_output=True, text=True, timeout=w.get("timeout", 30), cwd=tmpdir)
+                except subprocess.TimeoutExpired:
+                    bad_items.append("%r: timeout" % (reqs[:3],))
+                    failing.append(reqs)
+                    continue
+                answers = [o for o in _jsons(p.stdout) if any(k in o.get("kind", {}) for k in ("evaluate", "run_command", "malformed_request"))]
+                why = None
+                if p.returncode == 101 or "panicked at" in p.stderr:
+                    m_ = re.search(r"panicked at ([^\n]*)\n([^\n]*)", p.stderr)
+                    why = "the session died: %s" % (" ".join(m_.groups()) if m_ else p.stderr[-160:])
+                elif len(answers) != len(reqs):
+                    why = "%d answers for %d requests" % (len(answers), len(reqs))
+                elif not (answers and "evaluate" in answers[-1]["kind"] and answers[-1]["kind"]["evaluate"]["value"].get("Ok") == "42"):
+                    why = "the last request was not answered with 42: %s" % json.dumps(answers[-1])[:200]
+                if why:
+                    bad_items.append("%r: %s" % (reqs, why))
+                    failing.append(reqs)
+            return {"cmd": "reftest-json-session <%d sequences>" % len(w["input"]), "exit": 0, "stdout": "", "stderr": "",
+                    "reproduced": bool(bad_items), "why": "; ".join(bad_items[:3])[:1600], "n_inputs": len(w["input"]), "failing_inputs": failing[:4]}
         elif kind == "resume-corpus":
             # C07 bounded stand-in: each item is a list of session inputs ending in a failing step; after it
             # `:resume` is sent `resumes` times and every answer must carry the same error message and
